@@ -206,12 +206,18 @@ func (pool *BlockPool) RedoRequest(height int64) {
 	request := pool.requesters[height]
 	pool.mtx.Unlock()
 
-	if request.block == nil {
-		gcmn.PanicSanity("Expected block to be non-nil")
+	if request == nil {
+		return
+	}
+	// The block can disappear at any time, due to removePeer() (see PopRequest): the peer that
+	// served it was removed between PeekTwoBlocks() and here and the request is being redone already.
+	peerID := request.getPeerID()
+	if request.getBlock() == nil || peerID == "" {
+		return
 	}
 	// RemovePeer will redo all requesters associated with this peer.
 	// TODO: record this malfeasance
-	pool.RemovePeer(request.peerID)
+	pool.RemovePeer(peerID)
 }
 
 // TODO: ensure that blocks come in order for each peer.
